@@ -797,8 +797,12 @@ def mutation_sites(stmt) -> list:
                             if leaf.get('f') == 'lit' and _twin(leaf['kind'], leaf['v']) is not None:
                                 sites.append(('group:select', path + ('select', i) + sub, 'collide'))
                         sites.append(('group:select', path + ('select', i), 'detach'))
+                if node.get('select'):  # the implicit select-all of a grouped query is a selection as well (seeded change C07-6)
+                    sites.append(('group:select', path + ('select',), 'drop-select'))
             elif len(node.get('select') or []) >= 2:
                 sites.append(('group:select', path + ('groupby',), 'group-first'))
+            elif not node.get('select') and len(elems) >= 2:
+                sites.append(('group:select', path + ('groupby',), 'group-star'))
         else:
             if node['kind'] == 'cross':
                 sites.append(('join:cross-cond', path + ('cond',), 'add'))
@@ -956,6 +960,10 @@ def _apply(ch, stmt, rule, path, how):
         if name is None:
             return None
         return A.replace(stmt, path, A.alias(new, name))
+    if how == 'drop-select':  # grouped query left with the implicit select-all
+        return A.replace(stmt, path, [])
+    if how == 'group-star':  # select-all query grouped by one of its source's features
+        return A.replace(stmt, path, [copy.deepcopy(ch.pick([f for f, _ in elems]))])
     if how == 'group-first':
         first = A.strip_alias(node['select'][0])
         if A.has_agg(first) or A.has_win(first):
